@@ -58,3 +58,40 @@ pub fn kind_of(primitive: &crate::Primitive) -> String {
         other => format!("{:?}", other.ty()),
     }
 }
+
+/// H3: when `MSCRIPT_VERIF_DUMP=<file>` is set, append the instruction streams of a
+/// loaded file: `path \t function \t index \t opcode \t hex(arg0),hex(arg1),...`,
+/// functions in name order.
+pub fn dump_file(file: &crate::file::MScriptFile) {
+    let Some(path) = std::env::var_os("MSCRIPT_VERIF_DUMP") else {
+        return;
+    };
+    let Ok(mut out) = OpenOptions::new().create(true).append(true).open(path) else {
+        return;
+    };
+    let Some(functions) = file.get_functions_ref() else {
+        return;
+    };
+    let mut names: Vec<&String> = functions.map.keys().collect();
+    names.sort();
+    let mut text = String::new();
+    for name in names {
+        let function = &functions.map[name];
+        for (index, instruction) in function.verif_instructions().iter().enumerate() {
+            let args: Vec<String> = instruction
+                .arguments
+                .iter()
+                .map(|arg| arg.bytes().map(|b| format!("{b:02x}")).collect::<String>())
+                .collect();
+            text.push_str(&format!(
+                "{}\t{}\t{}\t{}\t{}\n",
+                file.path(),
+                name,
+                index,
+                instruction.id,
+                args.join(",")
+            ));
+        }
+    }
+    let _ = out.write_all(text.as_bytes());
+}
